@@ -36,6 +36,24 @@ CLAIMED = {
     "C18": ("memsim", "6.1",
             "Seeded register store/load histories with mixed widths and symbolic values and State.Apply of register stores and memory stores with constant, constant-foldable and symbolic addresses; last-write model; refused Apply must leave a rendered state snapshot unchanged.",
             "Trusted: refeval reference."),
+    "C22": ("uisim", "6.5",
+            "Whole interactive sessions (real UI.Run, modes, line reader, renderer, terminal-size ioctl on a pty) under a seeded simulated user and scheduler: all commands/aliases with boundary, huge, negative, non-numeric arguments, odd spacing, garbage; stream faults (split/glued lines, CRLF, over-long line, EOF, read error) and terminal faults (resizes, non-tty). No panic may escape Run(); non-commands must be answered with 'error:'; Run() returns as specified.",
+            "Trusted: prompt classification and frame parsing from the captured output. Stream end is injected only at non-value prompts."),
+    "C23": ("uisim", "6.5",
+            "Sessions biased to instruction/block moves and alllines dumps: every listing row of every frame and dump must equal the same row of a fresh rendering of the current deps.Code; a rejected move leaves the rendering unchanged.",
+            "Trusted: fresh rendering from deps.Code's public API; marks and column padding excluded."),
+    "C24": ("uisim", "6.5",
+            "Sessions biased to terminal resizes before renders (1-300 rows): no frame may exceed the rows in force; direct driver renders the live listing view, emulator composite and memory view with Print(n) for n from the declared minimum to minimum+40: no panic, at most n lines, exactly n for fixed-height views.",
+            "Trusted: line counting of captured output. A render error returned to the caller is accepted (not a crash, not an over-write)."),
+    "C30": ("uisim", "6.5",
+            "Sessions biased to emulation value prompts, regmod and memory-view 'address': numbers are spelled in random accepted bases/sign/case; the address must select the right row or be echoed exactly in the 'no line' error, other arguments must be answered with an error; typed values must appear in the live emulator state as the integer modulo 2^(8w); malformed answers must be rejected and the same item re-prompted.",
+            "Trusted: the harness's own strict parser of the checked forms; live state read at simulator re-entry."),
+    "C31": ("uisim", "6.5",
+            "Sessions biased to navigation: cursor parsed from frames before/after down/up/goto/entrypoint/find against a model (error => unchanged; else +-N, N, entry instruction line, first cyclic regex match after the cursor).",
+            "Trusted: model texts for find use single-token, anchor-free patterns only (padding-independent)."),
+    "C32": ("uisim", "6.5",
+            "Sessions that emulate and then open memory views, plus direct whole-view renders: rows must be exactly one per 16-byte window overlapping the live memory's stored blocks, ascending, with each stored byte's value, '..' for absent bytes, one ellipsis row between non-consecutive rows; 'address' selects the row of a stored byte or reports absence.",
+            "Trusted: expected rows are computed from the live memory object's Blocks()/Load() (their correctness is C14-C16)."),
 }
 
 PENDING = {
